@@ -42,8 +42,8 @@ def graphs():
     return {"flat": flat, "nested": nested}
 
 
-XOBJ = {"flat": ["X-flat"], "nested": ["X-nested"]}
-XNAME = {"flat": "x", "nested": "xx"}
+XOBJ = {"flat": ["X-flat"], "nested": ["X-nested"], "flat@g": ["O-tail"], "nested@go": ["O-ntail"]}
+XNAME = {"flat": "x", "nested": "xx", "flat@g": "out", "nested@go": "out"}
 
 
 class Env:
@@ -84,6 +84,9 @@ class Env:
                 p = _suffix(p, "_" + kind[0])
                 g = build(p, h, nodes)
                 self.g[(name, kind)] = g.bind(cfg=BOUND)
+                # a sibling of the same graph object entered further down (shares nodes, hash and defaults with its parent)
+                tail = {"flat": "g", "nested": "go"}[name]
+                self.g[(f"{name}@{tail}", kind)] = self.g[(name, kind)].with_entrypoint(tail)
         self.runners = {("A", "sync"): SyncRunner(), ("B", "sync"): SyncRunner(), ("A", "async"): AsyncRunner(), ("B", "async"): AsyncRunner()}
         self.defaults0 = self.defaults()
 
@@ -114,6 +117,16 @@ def _all_nodes(g):
 
 
 OPS = [(gn, slot, kind, form) for gn in ("flat", "nested") for slot in ("A", "B") for kind in ("sync", "async") for form in ("dict", "dict+kw", "kw")]
+OPS += [(gn, slot, kind, "dict") for gn in ("flat@g", "nested@go") for slot in ("A",) for kind in ("sync", "async")]
+_ALONE = {}
+
+
+def alone(op):
+    """The view of this run operation performed first, in a fresh environment (the reference for every history position)."""
+    k = (op[0], op[2], op[3])
+    if k not in _ALONE:
+        _ALONE[k] = do_run(Env(), op)[0]
+    return _ALONE[k]
 
 
 def call_args(gname, form):
@@ -196,6 +209,8 @@ def check_history(acc, hist):
         acc.evaluations += 1
         acc.transitions += 1
         ref = first.setdefault(op[0], view)
+        if view != alone(op) and not vs:
+            vs.append(("result-differs-from-run-alone", f"run #{pos + 1} {op} returned {jsonable(view)} but the same call as the first one of a fresh process returns {jsonable(alone(op))}"))
         if view != ref and not vs:
             vs.append(("result-differs-between-runs", f"run #{pos + 1} {op} returned {jsonable(view)} but an earlier run of the same graph with equal inputs returned {jsonable(ref)}"))
         if view[0] != "completed" and not vs:
